@@ -9,11 +9,25 @@ hook_commits = [l.split()[0] for l in hooks if " verif hook:" in " " + l]
 S = "deterministic simulation with fault injection (Engine S: seeded sequential discrete-event simulation of the real repository over a simulated disk and header network; step-by-step refinement against an independent reference block tree; op-level minimised replay)"
 G = "deterministic simulation with fault injection (Engine G: real goroutines in a testing/synctest bubble with a fake clock, simulator-owned connections, scripted peers and gated seams; seeded driver; invariants over recorded outputs)"
 
+NOTE_S = "Synthetic headers without proof of work (repository's own difficulty switch off; work still derives from bits); small prune depths through the verif hooks that call the real clean/prune/load and are always larger than MaxBranchDepth; reference model is independent code; atomic key writes. Sampling, not proof: reach is measured by the probes and fault counters in the evidence file."
+def s_text(what):
+    return "Seeded search over tens of thousands of simulated histories per second (forks of forks, sibling/cousin overtakes by work, reorder/duplicate/drop from several peers, Clean/Save/restart with real and small prune depth). " + what + " Failures are minimised at operation level and replay exactly from the recorded script."
+
 checks = {
  # id: (engine, category, text, note, technique)
- "C01": ("S", "exploration", "Seeded search over thousands of simulated histories per second (forks of forks, sibling/cousin overtakes by work, reorder/duplicate/drop from several peers, Clean/Save/restart with real and small prune depth); after every event the reported tip, work, height and the hash/header at every height are compared with an independent reference block tree. Sampling, not proof; reach is measured by probes in the evidence file.", "Synthetic headers without proof of work (repository's own difficulty switch off); small prune depths through the verif hooks that call the real clean/prune/load; reference model is independent code.", S),
+ "C01": ("S", "exploration", s_text("After every event the reported tip, work, height and the hash/header at every height are compared with an independent reference block tree; an error return is checked for having left a heavier accepted chain unreported."), NOTE_S, S),
+ "C07": ("S", "exploration", s_text("0-3 subscribers drain the new-header stream after every submission; the delivered sequence must equal exactly the new best chain above the fork point, and applying it must reproduce the reported chain."), NOTE_S, S),
+ "C08": ("S", "exploration", s_text("Adversarially chosen next headers (orphan, duplicate anywhere, fork exactly at / one beyond MaxBranchDepth 0..8 and 144, deep side-tip extension, fork of fork) get the reference verdict; after any non-accepting answer every observable and (sampled) the bytes of a following Save are identical."), NOTE_S, S),
+ "C09": ("S", "exploration", s_text("After every event HashHeight/CheckHeader/GetHeader/PreviousHash of every header ever minted and tape-chosen GetHeaders ranges are compared with the reference tree, including after consolidation, pruning and reload."), NOTE_S, S),
+ "C10": ("S", "exploration", s_text("Clean is inserted 1-3 times back to back at tape-chosen positions; a canonical rendering of all observables must be byte-identical before and after, and the run continues under the tip/ancestry oracle so side branches must still extend and overtake."), NOTE_S, S),
+ "C11": ("S", "exploration", s_text("Save+Load generations at tape-chosen points: tip, chain by height and height/flag of every header within the retained depth must be equal; then the original and the loaded repository (twin run) get the same continuation and must agree on every verdict and observable."), NOTE_S, S),
+ "C12": ("S", "fault_enumeration", s_text("For each sampled Clean and Save EVERY prefix of its Write/Remove calls becomes a crash image loaded by a fresh repository: no error, no panic, linked chain of accepted headers from genesis, work >= last completed Save, and the loaded repository accepts an extension. Exhaustive over crash points within each sampled history, sampled over histories."), NOTE_S, S + "; crash-point enumeration over the simulated disk's mutation log"),
+ "C17": ("S", "exploration", s_text("Headers are marked invalid (best chain at any in-memory depth, side branch, first of branch, not yet seen, already marked, unknown hash, config supplied) and unmarked, with Save/restart between; the tip must be the heaviest chain not built on a marked header, flags and verdicts must follow."), NOTE_S + " Marking history that has left memory (deeper than the prune depth) is excluded from generation; see DESIGN.md findings.", S),
+ "C18": ("S", "exploration", s_text("Headers carry real merkle roots over 1-9 generated txids; standard proofs (with header / block hash only) for blocks on the best chain, side branches and pruned history must verify with the reference height and flag at every point of the history, and each single-element corruption must fail."), NOTE_S + " Proof arithmetic itself is dependency code, cross-checked against an independent merkle implementation.", S),
+ "C19": ("S", "exploration", s_text("GetLocatorHashes(max) is checked for membership, newest-first order from the tip's parent, no duplicates and the maximum; a simulated conformant peer on every root-to-leaf path of the reference tree answers the locator and its first header must connect."), NOTE_S, S),
 }
 NA = {}
+ALL = ["C%02d" % i for i in range(1, 21)]
 
 def main():
     m = {
@@ -32,7 +46,8 @@ def main():
       ],
       "checks": [],
       "notes": "All checks: ./run.sh <id> <tier> rebuilds sim/cmd/simcheck from /repo's working tree with -tags verif and runs a supervisor with up to 16 worker processes. Exit 0 held / 1 violation / 2 infrastructure trouble. VERIF_SEED selects the PRNG stream family; replay files under /verif/replays are op-level scripts (Engine S) or choice tapes (Engine G).",
-      "not_applicable": [{"property_id": k, "reason": v} for k, v in sorted(NA.items())],
+      "not_applicable": [{"property_id": k, "reason": v} for k, v in sorted(NA.items())] +
+                        [{"property_id": k, "reason": "check under construction in this round (the technique applies; see DESIGN.md section 5)"} for k in ALL if k not in checks and k not in NA],
     }
     for pid in sorted(checks):
         eng, cat, text, note, tech = checks[pid]
